@@ -3,7 +3,7 @@
 and records in seeded/<id>/meta.json which checks report a violation."""
 import json, os, subprocess, sys, re
 HERE = os.path.dirname(os.path.dirname(os.path.abspath(__file__)))
-WT = '/tmp/wt/eval'
+WT = os.environ.get('EVAL_WT', '/tmp/wt/eval')
 only = sys.argv[1:]
 claimed = [c['property_id'] for c in json.load(open(os.path.join(HERE, 'MANIFEST.json')))['checks']]
 subprocess.run(['git', '-C', '/repo', 'worktree', 'remove', '--force', WT], stderr=subprocess.DEVNULL)
@@ -21,14 +21,14 @@ try:
         if subprocess.call(['git', '-C', WT, 'apply', patch]) != 0:
             print(d, 'PATCH DOES NOT APPLY to current HEAD'); continue
         results = {}
-        related = {'C01': ['C11', 'C12'], 'C04': ['C03'], 'C06': ['C01', 'C13'], 'C09': ['C01'], 'C10': ['C01', 'C11'], 'C05': ['C01'],
-                   'C13': ['C01'], 'C15': ['C01'], 'C16': ['C07'], 'C19': ['C02']}
+        related = {'C01': ['C11', 'C12', 'C07'], 'C04': ['C03'], 'C06': ['C01', 'C13'], 'C09': ['C01'], 'C10': ['C01', 'C11'], 'C05': ['C01'],
+                   'C13': ['C01'], 'C15': ['C01', 'C06'], 'C16': ['C07', 'C11'], 'C19': ['C02']}
         order = [prop] + [c for c in related.get(prop, []) if c in claimed]
         for c in order:
             if c not in claimed:
                 results[c] = dict(exit=None, note='property not claimed')
                 continue
-            env = dict(os.environ, VERIF_REPO=WT, VERIF_UNIT_BUDGET='90', VERIF_EVIDENCE_DIR='/tmp/wt/evidence_eval')
+            env = dict(os.environ, VERIF_REPO=WT, VERIF_UNIT_BUDGET='90', VERIF_EVIDENCE_DIR=WT + '_evidence')
             p = subprocess.run(['./check', c, '--tier', 'quick'], cwd=HERE, env=env, capture_output=True, text=True)
             viol = [l for l in p.stdout.splitlines() if l.startswith('VIOLATION')]
             results[c] = dict(exit=p.returncode, violations=[v[:200] for v in viol[:4]], n_violations=len(viol))
